@@ -11,6 +11,17 @@ THEOREMS = ["c04_delete_is_delete_all", "c04_no_dangling", "c04_victims_unreacha
 # scripted beginnings that build the link topologies deletion has to cope with: several sources of
 # ONE subtree linked from the same entity; an array referenced from groups and tags of its block
 PRELUDES = [
+    # a metadata link set and cleared again on every kind that can carry one (a leaf source, a source with a child,
+    # a group / array / tag / multi-tag / data frame without other children, a block): clearing never deletes the owner
+    [["create", 0, "CSections", "m", "t", []], ["create", 0, "CBlocks", "B", "t", []], ["create", 2, "CSources", "leaf", "t", []],
+     ["create", 2, "CSources", "par", "t", []], ["create", 4, "CSources", "kid", "t", []], ["create", 2, "CGroups", "g", "t", []],
+     ["create", 2, "CDataArrays", "a", "t", [1]], ["create", 2, "CTags", "t", "t", [1]], ["create_mtag", 2, "mt", "t", 7],
+     ["create", 2, "CDataFrames", "df", "t", [1, 2]],
+     ["set_link", 3, "RMetadata", 1], ["set_link", 3, "RMetadata", None], ["set_link", 4, "RMetadata", 1], ["set_link", 4, "RMetadata", None],
+     ["set_link", 5, "RMetadata", 1], ["set_link", 5, "RMetadata", None], ["set_link", 6, "RMetadata", 1], ["set_link", 6, "RMetadata", None],
+     ["set_link", 7, "RMetadata", 1], ["set_link", 7, "RMetadata", None], ["set_link", 8, "RMetadata", 1], ["set_link", 8, "RMetadata", None],
+     ["set_link", 9, "RMetadata", 1], ["set_link", 9, "RMetadata", None], ["set_link", 10, "RMetadata", 1], ["set_link", 10, "RMetadata", None],
+     ["set_link", 2, "RMetadata", 1], ["set_link", 2, "RMetadata", None]],
     # nested sources that are linked ONLY from a group's source list (and one also from an array)
     [["create", 0, "CBlocks", "B", "t", []], ["create", 1, "CSources", "s", "t", []], ["create", 2, "CSources", "c", "t", []],
      ["create", 3, "CSources", "cc", "t", []], ["create", 2, "CSources", "d", "t", []], ["create", 1, "CGroups", "g", "t", []],
